@@ -31,7 +31,7 @@ MODEL = ["theories/Arch/ExtractCorr.vo"]
 PROOFS = ["theories/Props/C17.vo"]
 STATEMENT_FILES = ["theories/Props/C17.v", "theories/Arch/ExtractGen.v"]
 
-RES = {"ok": 0, "refused": 1, "oserr": 2, "unsupported": 3}
+RES = {"ok": 0, "refused": 1, "oserr": 2, "unsupported": 3, "notfound": 4}
 
 
 def cb(s):
@@ -70,9 +70,17 @@ def to_coq(c):
         return ["CRel %s %s %s %s" % (cb(c["a"]), cb(c["b"]), cbool(c["res"] == "ok"), cb(c["out"]))]
     if op == "dir":
         return ["CDir %s %s" % (cb(c["a"]), cb(c["out"]))]
+    if op == "tarzip":
+        return ["CTarZip %s %s %s" % (cb(c["a"]), "[" + "; ".join(cb(e["n"]) for e in c.get("seen") or []) + "]",
+                                     "[" + "; ".join(cb(n) for n in c.get("outs") or []) + "]")]
+    if has_links(c):
+        return []       # the file-system model has no symbolic links: observed, not modelled
     cfg = "{| cwd := %s; umask := %d |}" % (ckey(c.get("cwd", "/")), c["umask"])
     res = RES.get(c["res"], 9)
     out = []
+    if op == "firstfile":
+        return ["CFirstFile %s %s %s %s %d %s" % (cfg, cb(c.get("dest", "")), centries(c.get("seen")),
+                                                 cfs(c.get("before")), res, cfs(c.get("after")))]
     if op == "untar":
         out.append("CUntar %s %s %s %s %d %s" % (cfg, cb(c.get("dest", "")), centries(c.get("seen")),
                                                  cfs(c.get("before")), res, cfs(c.get("after"))))
@@ -81,6 +89,31 @@ def to_coq(c):
                                                     cfs(c.get("before")), res, cfs(c.get("after"))))
     if op == "roundtrip":
         out.append("CZipDir %s %s" % (cfs(c["tree"]), centries(c.get("seen"))))
+    return out
+
+
+def has_links(c):
+    return any(n.get("x") for n in (c.get("before") or []) + (c.get("after") or []))
+
+
+def link_targets(c):
+    """absolute targets of the symbolic links the destination held before the extraction"""
+    out = []
+    for n in c.get("before") or []:
+        if n.get("x") == "symlink":
+            t = n.get("l", "")
+            base = n["p"].rsplit("/", 1)[0]
+            segs = (t if t.startswith("/") else base + "/" + t).split("/")
+            st = []
+            for s_ in segs:
+                if s_ in ("", "."):
+                    continue
+                if s_ == "..":
+                    if st:
+                        st.pop()
+                    continue
+                st.append(s_)
+            out.append("/" + "/".join(st))
     return out
 
 
@@ -104,15 +137,27 @@ def impl_oracle(c):
     if c.get("crash"):
         return ("impl:crash:%s" % c["op"], "extraction crashed: %s" % c["crash"][:200])
     op = c["op"]
-    if op not in ("unzip", "untar", "roundtrip", "zipfile") or "after" not in c:
+    if op not in ("unzip", "untar", "roundtrip", "zipfile", "firstfile") or "after" not in c:
         return None
     dest = c["destabs"]
+    # an extraction never creates a link, a device, a fifo or a socket
+    bx = {n["p"]: n.get("x") for n in c.get("before") or []}
+    for n in c.get("after") or []:
+        if n.get("x") and bx.get(n["p"]) != n.get("x"):
+            return ("impl:created-special:%s" % op,
+                    "%s created a %s at %s (entries %r)" % (op, n["x"], n["p"], [e["n"] for e in c.get("seen") or []]))
+    followed = link_targets(c)
     esc = []
     for p, b, a in changed_paths(c):
         if under(p, dest):
             continue
         if under(dest, p) and b is None and a is not None and a["d"]:
             continue            # a missing ancestor of the destination, created as a directory
+        if any(under(p, t) for t in followed):
+            # written through a symbolic link that was already inside the destination: outside the
+            # property (the archive did not and cannot create it); counted, not a violation
+            c["_followed"] = c.get("_followed", 0) + 1
+            continue
         esc.append((p, b, a))
     if esc:
         p, b, a = esc[0]
@@ -138,7 +183,7 @@ def impl_oracle(c):
                 if got["m"] != n["m"]:
                     return ("impl:roundtrip:filemode", "mode of %r: %o became %o" % (n["p"], n["m"], got["m"]))
             elif c["clear"] or p not in b:
-                want = n["m"] & ~c["umask"]
+                want = n["m"] & 0o1777 & ~c["umask"]     # mkdir(2): no set-user/group-ID; umask applies
                 if got["m"] != want:
                     return ("impl:roundtrip:dirmode", "mode of directory %r: %o became %o (umask %o)"
                             % (n["p"], n["m"], got["m"], c["umask"]))
@@ -217,6 +262,7 @@ def run(ck):
                 "expected": "only paths at or beneath the destination change; ZipDir/UnzipDir reproduces the tree",
                 "observed": why[1]})
     ck.coverage["sandbox_modes"] = modes
+    ck.coverage["writes_through_preexisting_links_observed"] = sum(1 for c in cases if c.get("_followed"))
     ck.coverage["results"] = results
     ck.coverage["exhaustive"] = False
     for i in (0, 12, 200, 700, len(cases) - 1):
@@ -278,9 +324,18 @@ def run(ck):
              "destination) + every name of a 40-name hostile corpus alone as file and as directory through both "
              "extractors + seeded archives of 1-4 entries (one quarter hostile names, the rest benign and colliding "
              "names) over 12 destination spellings x 4 initial destinations x 4 umasks, with and without clear + random "
-             "trees round-tripped through ZipDir/UnzipDir and ZipFile + filepath.Join/Rel on all pairs over {a,.,/} "
+             "trees (with set-user/group-ID and sticky bits) round-tripped through ZipDir/UnzipDir and ZipFile + entry "
+             "types (zip entries with symlink/fifo/device/socket modes, tar symlink/hardlink/char/block/fifo/cont "
+             "entries, each followed by an entry named through it) + destinations already holding symbolic links "
+             "(observed only) + writeFirstFileAs + tarutil.TarZipFile names + filepath.Join/Rel on all pairs over {a,.,/} "
              "up to length 3 (4 thorough) and filepath.Dir up to length 6 (8). A case is trivial when its archive is "
              "empty or its strings are empty; distinct = distinct (op, destination, cwd, umask, setup, entries)",
-        assumptions=["no symbolic links inside the sandbox", "process runs as root: permission checks are bypassed",
+        assumptions=["a symbolic link that already exists inside the destination is followed by the kernel: out of the "
+                     "property's scope (archives cannot create links: tar link/device entries are refused, zip entries "
+                     "with link/device modes are written as regular files - theorems + oracle rule impl:created-special); "
+                     "such writes are observed and counted (stream dest-links), the file-system model has no links",
+                     "process runs as root: permission checks are bypassed, set-user/group-ID survive chmod+write",
+                     "mode bits: files reproduce all of 07777; directories 01777 under the umask (mkdir(2) drops "
+                     "set-user/group-ID)",
                      "GODEBUG zipinsecurepath / tarinsecurepath at the module defaults (insecure names reach the code)",
                      "ASCII entry names", "directory modes are reproduced modulo the process umask (mkdir)"])
